@@ -106,9 +106,9 @@ pub fn patterns(space: &str, tier: &str, seed: u64) -> Vec<String> {
     if ["c01", "c15", "c05", "c16", "c07"].contains(&space) {
         let bodies = [
             "(a)?(b)?\\1?", "(?:(a)|b(?!b))+", "(a)?(b)?", "(?:(a)|(b))+", "(a|ab)(c|bc)?", "(a)*?(b)*?", "(?:(a)|b)+?", "(a)??(b)??",
-            "(?:(a)|ab)(?:(b)|)", "(a)?(?:(b)|c)?(-)?",
+            "(?:(a)|ab)(?:(b)|)", "(a)?(?:(b)|c)?(-)?", "(a)|(.)", "(?:(a)|(.))b?", "(b)|(a)|(.)",
         ];
-        let tails = ["c", "\\1c", "(?(1)c|-)", "", "(?(2)c)", "\\b"];
+        let tails = ["c", "\\1c", "(?(1)c|-)", "", "(?(2)c)", "\\b", "\\2", "\\2?b"];
         let alts = ["ab", "[ab]+", "a", "(?s:.){2}", ""];
         for b in bodies {
             for t in tails {
